@@ -29,7 +29,7 @@ from ..ref import lazy
 PROPERTY = 'C10'
 LEVEL = 'exploration'
 RULE = ('families: IFS = 25 simple conditions (literals, a cell over 7 '
-        'values, SPY-wrapped cell, A1>1) x 16 x 17 branch forms (constants, '
+        'values, SPY-wrapped cell, A1>1) x 18 x 19 branch forms (constants, '
         'cell, SPY, error value, unknown function, circular reference, SPY '
         'around each, unknown function around a SPY, nested IF, AND/OR of '
         'spies; b may be '
@@ -80,6 +80,9 @@ FIVE = ('lit', '5', 5.0)
 ONE = ('lit', '1', 1.0)
 XTXT = ('lit', '"x"', 'x')
 VREF = ('ref', 'V1')
+# a harmless precedent whose own formula holds a guarded reference back to
+# the evaluated cell: =IF(FALSE, <evaluated cell>, 5)
+WREF = ('ref', 'W1')
 DIV0 = ('err', '1/0', '#DIV/0!')
 NAERR = ('err', 'NA()', '#N/A')
 NOSUCH = ('raise', 'NOSUCH()')
@@ -95,6 +98,7 @@ def S(k, x):
 def decode(env):
     out = {c: REFVAL[t] for c, t in env.items()}
     out['V1'] = 7.0
+    out['W1'] = 5.0
     return out
 
 
@@ -118,6 +122,8 @@ def _execute(text, env):
     if 'Y1' in text:
         cells[SHEET + 'Y1'] = '=Y2+1'
         cells[SHEET + 'Y2'] = '=Y1+1'
+    if 'W1' in text:
+        cells[SHEET + 'W1'] = '=IF(FALSE,%s,5)' % AT.split('!')[1]
     log = []
 
     def SPY(k, v):
@@ -379,7 +385,8 @@ def judge_call(fn, toks, mode, ctx):
 def branch_forms(k):
     """name -> tree; spy ids k, k+1."""
     return [
-        ('c5', FIVE), ('cx', XTXT), ('refV', VREF),
+        ('c5', FIVE), ('cx', XTXT), ('refV', VREF), ('refW', WREF),
+        ('spyW', S(k, WREF)),
         ('spy5', S(k, FIVE)), ('spyV', S(k, VREF)),
         ('div0', DIV0), ('nosuch', NOSUCH), ('cycle', CYCLE),
         ('spy-div0', S(k, DIV0)), ('spy-nosuch', S(k, NOSUCH)),
@@ -394,7 +401,7 @@ def branch_forms(k):
 
 POISON_FORMS = ('div0', 'nosuch', 'cycle', 'spy-div0', 'spy-nosuch',
                 'spy-cycle', 'nosuch-of-spy', 'nested-if-T', 'nested-if-F')
-SPY_FORMS = ('spy5', 'spyV', 'spy-div0', 'spy-nosuch', 'spy-cycle',
+SPY_FORMS = ('spy5', 'spyV', 'spyW', 'spy-div0', 'spy-nosuch', 'spy-cycle',
              'nosuch-of-spy', 'nested-if-T', 'nested-if-F')
 # (form of the selected branch, form of the unselected branch); which of
 # them is a and which is b follows from the reference truth of the condition
@@ -793,7 +800,7 @@ def replay(inputs, ctx):
 
 def selftest():
     lazy.selftest()
-    assert len(branch_forms(0)) == 16 and len(all_pairs()) == 16 * 17
+    assert len(branch_forms(0)) == 18 and len(all_pairs()) == 18 * 19
     assert len(simple_conditions()) == 25
     assert len(shapes(1, 3)) == 40
     assert lazy.render(build(('I3', 'L', ('N', 'G'), 'L'))) == \
@@ -817,7 +824,7 @@ TECHNIQUE = ('bounded-exhaustive enumeration of condition shapes x branch '
              'spy functions in its private namespace, against a reference '
              'lazy evaluator; AND/OR judged conditionally on the observed '
              'spy log')
-LEVEL_TEXT = ('Every IF over 25 simple conditions x 272 branch pairs and '
+LEVEL_TEXT = ('Every IF over 25 simple conditions x 342 branch pairs and '
               'over every NOT/AND/OR/IF/comparison condition shape of depth '
               '<= 2 (thorough 3) on <= 3 cells x all assignments of '
               'TRUE/FALSE/0/2/blank, with poisoned unselected branches (error '
